@@ -5,7 +5,8 @@ CONSTANTS
   MaxDevs = 3
   MaxSteps = 99
   UseRPs = {"cw", "cx", "cj", "cp"}
-  Ops = {"Start", "Authorize", "Login", "OPCallback", "RPCallback", "Userinfo", "Introspect", "Refresh", "Revoke", "Expire", "EndSession", "DeviceStart", "DeviceApprove", "DevicePoll"}
+  Modes = {"query", "form_post"}
+  Ops = {"Start", "Authorize", "Login", "OPCallback", "RPCallback", "Userinfo", "Introspect", "Refresh", "Revoke", "Expire", "EndSession", "DeviceStart", "DeviceApprove", "DevicePoll", "TokenExchange"}
   Depth = 18
 INVARIANT Emit
 INVARIANT NoViolation
